@@ -56,6 +56,17 @@ def streams(tier):
     out.append(('iv:broken magic+valid', bzgen.flip(good2, ins['streams'][0]['blocks'][2]['bit_offset'] + 3) + good))
     bad_planted = bzgen.flip(bzgen.build([([Block(pl, tables=tabs, sel_codes=bzgen.planted_selectors(6, crcs[0], 100)), Block(b"zz")], 1)])[0], 70 * 8 + 3)
     out.append(('iv:planted then corrupt', bad_planted))
+    # (vi) complete decodable blocks planted verbatim inside valid compressed data (carrier block whose
+    # prefix code spells arbitrary bit strings, bzgen.carrier), at every bit shift relative to the byte grid
+    fakebits = bzgen.block_bitstring(Block(b'fake block contents'))
+    fake300 = bzgen.block_bitstring(Block(bytes(((i * 5) % 23) * 3 + 40 for i in range(300))))   # spaced byte values: no long runs of 1 bits in the symbol map
+    bomb = bzgen.block_bitstring(Block(L=bytes(1500), origptr=0, plain_for_crc=b''))
+    for sh in (range(0, 9) if not quick else (0, 3, 5)):
+        out.append(('vi:carrier fake shift%d' % sh, bzgen.build([([bzgen.carrier([fakebits], 3, sh), Block(b'after the carrier')], 1)])[0]))
+    out.append(('vi:carrier 3 fakes', bzgen.build([([bzgen.carrier([fakebits, fake300, fakebits], 2, 1), Block(b'tail block')], 1)])[0]))
+    out.append(('vi:carrier fake300', bzgen.build([([Block(b'head block'), bzgen.carrier([fake300], 5, 2), Block(b'tail block')], 1)])[0]))
+    out.append(('vi:carrier bomb', bzgen.build([([bzgen.carrier([bomb], 4, 4), Block(b'tail block')], 1)])[0]))
+    out.append(('vi:2 carriers', bzgen.build([([bzgen.carrier([fakebits], 3, 2), bzgen.carrier([fake300], 3, 7, salt=1), Block(b'z')], 1)])[0]))
     # (v) many headers: concatenated small streams (genuine headers everywhere)
     out.append(('v:8 streams', b''.join(bzgen.build([([Block(b'stream %d' % i)], 1 + i % 9)])[0] for i in range(8))))
     out.append(('v:py 3blk', bz2.compress(inputs.kind('N', 250000), 1)))
@@ -81,7 +92,7 @@ def run(tier):
     def judge(x, ref):
         if x['sanitizer']: return 'sanitizer report'
         if x['kind'] != 'exit': return 'ended by %s(%s)' % (x['kind'], x['code'])
-        if x['inv']: return 'scheduler counter invariant broken (%d)' % x['inv']
+        if x['inv']: return 'invariant broken: ' + sched.inv_text(x['inv'])
         if ref['ok'] and not (ref['flags'] & 3):
             if x['code'] != 0: return 'exit status %d, sequential decoding succeeds (%s)' % (x['code'], x['stderr_head'][:60])
             if x['stdout_len'] != ref['out_len'] or x['stdout_hash'] != ref['out_hash']:
@@ -105,9 +116,10 @@ def run(tier):
     ex = sched.Explorer(chk, par=4, jobs=4)
     sel = [n for n, _ in ss if n in ('i:phase0+2nd', 'i:phase9+2nd', 'i:phase21+2nd', 'i:two copies', 'i:both blocks', 'iii:fake block',
                                      'iii:3blk+fake block', 'iii:valid stream', 'iii:bad-crc stream', 'iii:shifted fake', 'iv:badcrc+bait',
-                                     'iv:truncated+bait', 'iv:planted then corrupt', 'v:8 streams')]
+                                     'iv:truncated+bait', 'iv:planted then corrupt', 'v:8 streams',
+                                     'vi:carrier fake shift0', 'vi:carrier fake shift5', 'vi:carrier 3 fakes', 'vi:carrier fake300', 'vi:carrier bomb', 'vi:2 carriers')]
     if quick:
-        sel = sel[::2] + ['iv:badcrc+bait']
+        sel = sel[::2] + ['iv:badcrc+bait', 'vi:carrier 3 fakes']
     refm = {n: r for (n, _), r in zip(ss, refs)}
     datam = dict(ss)
     for name in dict.fromkeys(sel):
@@ -118,12 +130,15 @@ def run(tier):
             def orc(c):
                 if c['sanitizer']: return 'sanitizer report'
                 if c['kind'] != 'exit' or c['code'] != 1: return 'ended by %s(%s), sequential decoding fails' % (c['kind'], c['code'])
-                if c['inv']: return 'scheduler counter invariant broken'
+                if c['inv']: return 'invariant broken: ' + sched.inv_text(c['inv'], c.get('note', ''))
                 return None
         for W in (2, 3):
             for ig in ((32, 64) if quick else (16, 32, 64)):
-                ex.add('schedules', 'fast', ['-d', '-n%d' % W], data, orc, '%s W=%d in_granul=%d' % (name, W, ig),
-                       {'setenv': {'LBZIP2_VERIF_IN_GRANUL': str(ig)}})
+                env = {'LBZIP2_VERIF_IN_GRANUL': str(ig)}
+                if name.startswith('vi:') and ig != 32:
+                    env['LBZIP2_VERIF_OUT_GRANUL'] = '40'       # bogus blocks that fill several output buffers
+                ex.add('schedules', 'fast', ['-d', '-n%d' % W], data, orc, '%s W=%d in_granul=%d%s' % (name, W, ig, ' out_granul=40' if len(env) > 1 else ''),
+                       {'setenv': env})
     done = 0
     for d in range(1, (2 if quick else 3) + 1):
         if not ex.run_pass(d):
